@@ -14,7 +14,70 @@ CONV_DV = re.compile(r"TryFrom<&('\w+ )?v1::DecisionVariable>>::try_from|<&('\w+
 
 
 def item_evaluations(body, lo, ty):
-    return item_calls(body, lo, ty, 'evaluate')
+    """`item.evaluate(state)` of the loop items -- or, for removed constraints, RemovedConstraint::evaluate written out in the loop:
+    `item.constraint.as_ref().context(..)?.evaluate(state)` (the removal fields then have to be attached in the loop, see inlined_removed_ok)"""
+    ev = item_calls(body, lo, ty, 'evaluate')
+    if ev or ty != RC: return ev
+    out = []
+    for c in body.calls:
+        if c.bb in lo[4] and c.item == 'evaluate' and re.search(r'<v1::Constraint as evaluate::Evaluate>::evaluate', c.name):
+            fs, root, calls = T.access_path(body, c.args[0])
+            if (RC, 'constraint') in fs and lo[0].dst['l'] in ctx_free_slice_locals(body, c.args[0], lo): out.append(c)
+    return out
+
+
+def ctx_free_slice_locals(body, operand, lo):
+    """locals on the access path of an operand (no slicer needed): is the loop item among them?"""
+    seen = set(); l = operand['pl']['l'] if operand['k'] in ('copy', 'move') else None
+    for _ in range(20):
+        if l is None or l in seen: break
+        seen.add(l)
+        ds = [d for d in body.defs_of(l) if not (d[0] == 'stmt' and d[2]['dst']['p'])]
+        if len(ds) != 1: break
+        k, bi, d = ds[0]
+        if k == 'stmt':
+            rv = d['rv']
+            if rv['k'] == 'use' and rv['ops'][0]['k'] in ('copy', 'move'): l = rv['ops'][0]['pl']['l']
+            elif rv['k'] == 'ref': l = rv['pl']['l']
+            else: break
+        else:
+            l = d['args'][0]['pl']['l'] if d['args'] and d['args'][0]['k'] in ('copy', 'move') else None
+    return seen
+
+
+def inlined_removed_ok(ctx, body, lo, ev, push):
+    """RemovedConstraint::evaluate written out inside the loop: the evaluated constraint that is pushed got
+    removed_reason = Some(item.removed_reason..) and removed_reason_parameters = item.removed_reason_parameters.. of THIS item before the push,
+    nothing else of it was changed, and a missing inner constraint is an error.   -> list of problems"""
+    probs = []
+    s = ctx.S.slice_operand(body, push.args[1])
+    chain = {l for l in s.locals if re.fullmatch(r'v1::EvaluatedConstraint', body.locals[l])}
+    item = lo[0].dst['l']
+    writes = {}
+    for bi, st in body.stmts():
+        if st['dst']['p'] and st['dst']['l'] in chain:
+            fs = fields_of_place(st['dst'])
+            writes.setdefault(fs[-1][1] if fs else '?', []).append((bi, st))
+        elif st['rv']['k'] == 'ref' and st['rv'].get('mut') and st['rv']['pl']['l'] in chain and bi in lo[4]:
+            probs.append('the evaluated constraint is borrowed mutably')
+    for f in ('removed_reason', 'removed_reason_parameters'):
+        ws = writes.pop(f, [])
+        good = False
+        for bi, st in ws:
+            if st['rv']['k'] != 'use' or not body.dominates(bi, push.bb): continue
+            ex = T.expr(body, st['rv']['ops'][0])
+            from_item = (RC, f) in T.expr_fields(ex) and item in ctx.S.slice_operand(body, st['rv']['ops'][0]).locals
+            if from_item and (f != 'removed_reason' or (ex[0] == 'agg' and ex[1].endswith('Option::Some'))): good = True
+        if not good: probs.append('%s is not attached from the removed constraint visited' % f)
+    if writes: probs.append('other fields are modified: %s' % sorted(writes))
+    for c in ev:
+        opt = [x for x in ctx.S.slice_operand(body, c.args[0]).call_objs if x.item == 'as_ref' and 'Option::<v1::Constraint>' in x.name]
+        for o in opt:
+            res = T.errflow(body, o.dst['l'])
+            if any(k == 'bad' for k, h in res):
+                arr, rets, complete = PathEval(ctx, body).explore(o.target, {o.dst['l']: ('d', 0, None)}) if o.target >= 0 else ({}, [], False)
+                if not (complete and rets and all(result_kind(e) == 'err' for e in rets)): probs.append('a removed constraint without constraint is not an error')
+    return probs
 
 
 def _whole(l):
@@ -240,11 +303,19 @@ def solution_rules(ctx, body):
         loop_must(ctx, R + '.lists/%s/push-every' % field, body, lo, lambda c: c in ps, 'evaluated_constraints.push')
         for c in ps:
             s = ctx.S.slice_operand(body, c.args[1])
-            ctx.check(any(e in s.call_objs for e in ev) and not any(x.item == 'clone' for x in s.call_objs), R + '.lists/%s/push-is-result' % field, 'T-CARRY', body.name, 'pushed value is not the evaluation result', body.site(c.bb))
+            inlined = ty == RC and bool(ev) and not item_calls(body, lo, ty, 'evaluate')
+            # (written out in the loop, the removal reason / parameters of the item are cloned into the result: those clones are not a copy of the result)
+            clones = [x for x in s.call_objs if x.item == 'clone' and not (inlined and x.args and any(a == RC and f in ('removed_reason', 'removed_reason_parameters') for a, f in T.expr_fields(T.expr(body, x.args[0]))))]
+            ctx.check(any(e in s.call_objs for e in ev) and not clones, R + '.lists/%s/push-is-result' % field, 'T-CARRY', body.name, 'pushed value is not the evaluation result', body.site(c.bb))
             # the pushed element is not modified between evaluation and push
             chain = {l for l in s.locals if re.fullmatch(r'v1::EvaluatedConstraint', body.locals[l])}
             touched = [body.site(bi) for bi, st in body.stmts() if (st['rv']['k'] == 'ref' and st['rv'].get('mut') and st['rv']['pl']['l'] in chain) or (st['dst']['p'] and st['dst']['l'] in chain)]
-            ctx.check(not touched, R + '.lists/%s/push-unmodified' % field, 'T-CARRY', body.name, 'evaluated constraint is modified before it is pushed (%s)' % touched, body.site(c.bb))
+            if ty == RC and ev and not item_calls(body, lo, ty, 'evaluate'):
+                # RemovedConstraint::evaluate written out in the loop: the only modification is the one that function itself makes
+                probs = inlined_removed_ok(ctx, body, lo, ev, c)
+                ctx.check(not probs, R + '.lists/%s/push-unmodified' % field, 'T-CARRY', body.name, 'removed constraint evaluated in place: %s' % '; '.join(probs), body.site(c.bb))
+            else:
+                ctx.check(not touched, R + '.lists/%s/push-unmodified' % field, 'T-CARRY', body.name, 'evaluated constraint is modified before it is pushed (%s)' % touched, body.site(c.bb))
         ctx.check(dominates_ok(ctx, body, header), R + '.lists/%s/dominates' % field, 'T-MUSTCALL', body.name, 'loop does not dominate the Ok-exit', body.site(nextc.bb))
     stray = [c for c in pushes if not any(c.bb in lo[4] for lo in loops.values())]
     ctx.check(bool(pushes) and not stray, R + '.lists/no-other-push', 'T-LOOPMUST', body.name, 'the evaluated list is also pushed to outside the two evaluation loops (%d)' % len(stray), body.site(stray[0].bb) if stray else body.site())
@@ -339,6 +410,10 @@ def solution_rules(ctx, body):
         ctx.check(st is not None and c in st.call_objs, R + '.state/fill/same-state', 'T-CARRY', body.name, 'irrelevant variables are filled into another map', body.site(c.bb))
         if ed is not None:
             ctx.check(dominates_sem(ctx, body, ed.bb, lo[1]), R + '.state/fill/after-dependencies', 'T-MUSTCALL', body.name, 'fill happens before dependencies are evaluated', body.site(c.bb))
+        # a value that IS present is never written in the completion loop: only the absent side inserts (seed C06-18: an `Occupied` arm clamping given values)
+        others = [x for x in body.calls if x.bb in lo[4] and x is not c and x.item != 'entry' and st is not None and x in st.call_objs
+                  and (T.MUT_CALL.search(x.name) or re.search(r'OccupiedEntry(::)?<.*>::(insert|get_mut|into_mut|remove|remove_entry)', x.name) or re.search(r'HashMap::<.*>::(get_mut|values_mut|iter_mut)', x.name))]
+        ctx.check(not others, R + '.state/fill/present-values-untouched', 'T-BRANCHFX', body.name, 'the completion loop also writes entries the state already has: %s' % [x.name[:70] for x in others][:2], body.site(others[0].bb) if others else body.site(c.bb))
         ctx.check(dominates_ok(ctx, body, lo[1]), R + '.state/fill/dominates', 'T-MUSTCALL', body.name, 'fill loop does not dominate the Ok-exit', body.site(c.bb))
     ctx.check(fill is not None, R + '.state/fill/nearest_to_zero', 'T-BRANCHFX', body.name, 'unused variables are not completed (only where the state has no value) with Bound::nearest_to_zero of their own bound', body.site())
     tbs = [c for c in body.calls if CONV_DV.search(c.name)]
@@ -496,6 +571,11 @@ def _unset_bound_table(ctx, fb):
         tr = T.reach_cp(fb, [tb], stop=hdrs) - T.reach_cp(fb, others, stop=hdrs); fr = T.reach_cp(fb, others, stop=hdrs) - T.reach_cp(fb, [tb], stop=hdrs)
         news = [x for x in fb.calls if x.bb in tr and x.path.endswith('Bound::new')]
         v01 = [tuple(f64_of_operand(fb, a) for a in x.args) for x in news]
+        # `Bound::new(0.0, 1.0)` == the struct literal `Bound { lower: 0.0, upper: 1.0 }` (possible inside the crate, e.g. in an inlined helper `Bound::default_for(kind)`)
+        for bi, st in fb.stmts():
+            if bi in tr and st['rv']['k'] == 'agg' and re.search(r'(^|::)bound::Bound$', st['rv']['adt']) and st['rv'].get('fields') and set(st['rv']['fields']) == {'lower', 'upper'}:
+                ops = dict(zip(st['rv']['fields'], st['rv']['ops']))
+                v01.append((f64_of_operand(fb, ops['lower']), f64_of_operand(fb, ops['upper'])))
         defs = [x for x in fb.calls if x.bb in fr and x.item == 'default' and 'bound::Bound' in x.name]
         tab['none-binary'] = v01[0] if len(v01) == 1 else tuple(v01)
         tab['none-other'] = 'Bound::default' if defs and not [x for x in fb.calls if x.bb in fr and x.path.endswith('Bound::new')] else 'other'
@@ -652,4 +732,4 @@ def check(ctx):
     if f is not None:
         check_feasibility_rule(ctx, 'C05.rule/EvaluatedConstraint::is_feasible', f, 'given')
         # atol > 0 guard is harmless; nothing else may reject
-    ctx.floor('C05.bound', 24); ctx.floor('C05.lists', 43); ctx.floor('C05.flags', 15); ctx.floor('C05.state', 14); ctx.floor('C05.rule', 6); ctx.floor('C05.cover', 5); ctx.floor('C05.objective', 2)
+    ctx.floor('C05.bound', 24); ctx.floor('C05.lists', 43); ctx.floor('C05.flags', 15); ctx.floor('C05.state', 15); ctx.floor('C05.rule', 6); ctx.floor('C05.cover', 5); ctx.floor('C05.objective', 2)
